@@ -3,6 +3,18 @@ import json, os
 V = os.path.dirname(os.path.dirname(os.path.abspath(__file__)))
 props = [json.loads(l) for l in open(os.path.join(V, "properties.jsonl"))]
 CLAIMED = {
+ "C01": dict(
+   text="Coq proof, by induction over type trees (rty_ind2) with an arbitrary trailing bit string (= arbitrary cursor/alignment), that the model of the Python decoder inverts the model of the encoder for every schema, struct and in-range value whose signed leaves are not the minimum (py_roundtrip_partial), together with the exact characterisation of decode(encode v) for EVERY in-range value (py_roundtrip_characterised: signed minima come back as +2^(n-1)) and the refutation of the full statement by a witness (known finding signed-min). The model is tied to src/fcp/serde.py on every run: generated schemas go through the real parser, encode and decode run on the real codec and Coq compares both with the model.",
+   note="Trusted: Coq kernel+vm_compute; _Buffer abstracted to the bit string written so far; struct.pack/unpack = identity on IEEE bit patterns; type-directed value embedding (harness/to_coq.py) and dict canonicalisation (Corr.Serde.canon); name resolution is the model's.",
+   technique="Coq proof (structural induction over type trees, generic decoder + normalisation) + model-vs-code correspondence evaluated in Coq", ref="§5 C01"),
+ "C02": dict(
+   text="Coq: the Python encoder model is definitionally the canonical format Wire.wire packed into bytes (py_encode_is_wire); the Python decoder recovers the value from any canonical encoding (py_decode_of_wire_partial / _characterised); the specification itself is injective and inverted by its own decoder (unwire_wire, wire_injective); and Wire.v is re-checked against the project's cross-language vectors regenerated from tests/standardized on every run (std_vectors_are_canonical). Tie: real encode compared with the model and with an independent reference, real decode run on canonical bytes.",
+   note="Trusted: as C01; the canonical format is what Wire.v says, anchored to tests/standardized (fail-closed translator harness/regen.py) and to the generated C++ in C03.",
+   technique="Coq proof (codec = specification, specification injective) + regenerated test vectors checked by vm_compute + correspondence", ref="§5 C02"),
+ "C16": dict(
+   text="Coq proof that decoding any strict byte prefix of the encoding of any in-range value of any schema raises the overrun error (decode_prefix_fails; bit-level form at any type and cursor: decode_bit_prefix_fails), by the same induction as C01. Tie: every byte-boundary truncation of generated encodings, announced lengths up to 2^32-1 and single-byte corruptions are decoded by the real code and the outcomes compared in Coq; elapsed time per decode is observed.",
+   note="Trusted: as C01; elapsed time is runtime behaviour (observed < 2 s per decode, not proved); element types have positive width (array sizes and integer widths >= 1).",
+   technique="Coq proof (prefix lemma by induction over type trees) + truncation/corruption correspondence evaluated in Coq", ref="§5 C16"),
  "C19": dict(
    text="Machine-checked proof (Coq) that the model of the generated scheduler (uint32 wrap-around arithmetic, static last_call/last_send, template guard order) equals the ideal 'send iff timestamp differs and >= P elapsed' automaton over unbounded time for every device and every call history (induction over the history, simulation invariant), plus send-iff / minimum-distance / no-period / current-value theorems; the model is tied to the generated C on every run by compiling devices with gcc and having Coq compare model and C on generated histories (incl. wrap-around).",
    note="Trusted: Coq kernel+vm_compute; gcc and the C abstract machine as modelled (uint32 subtraction, int->unsigned comparison); can_encode_msg_i observed, not modelled; histories obey the gap hypothesis (gap < 2^32 - max period); periods in {-1} U [0,2^31).",
